@@ -266,6 +266,30 @@ class C13(object):
                 pos += n
                 if desc["countall"]:
                     off += nmax
+        nrep = 0
+        if viol is None and any(len(f["val"]) for f in frames):
+            # the same SparseScan object labelled again with other options (smoothed signal, then raw again ...): every call
+            # must give what a fresh object gives for those options, and must leave the stored intensities alone
+            import io, contextlib
+            r2 = random.Random(len(frames) * 104729 + sum(len(f["val"]) for f in frames))
+            inten0 = np.array(sc.intensity, copy=True)
+            for _ in range(r2.randint(1, 3)):
+                sm, ca = r2.random() < 0.6, r2.random() < 0.5
+                with contextlib.redirect_stdout(io.StringIO()):
+                    sc.lmlabel(smooth=sm, countall=ca)
+                    fresh = self.sf.SparseScan(p, "1.1")
+                    fresh.lmlabel(smooth=sm, countall=ca)
+                nrep += 1
+                if not np.array_equal(np.asarray(sc.labels), np.asarray(fresh.labels)) or \
+                        not np.array_equal(np.asarray(sc.nlabels), np.asarray(fresh.nlabels)):
+                    viol = {"class": "history-dependent", "key": "SparseScan.lmlabel:history-dependent",
+                            "detail": "call %d on one SparseScan (smooth=%s, countall=%s): labels differ from those of a fresh object "
+                                      "labelled with the same options" % (nrep + 1, sm, ca)}
+                    break
+                if not np.array_equal(np.asarray(sc.intensity), inten0):
+                    viol = {"class": "history-dependent", "key": "SparseScan.lmlabel:history-dependent",
+                            "detail": "call %d on one SparseScan (smooth=%s): the stored intensities were changed" % (nrep + 1, sm)}
+                    break
         nobj = 0
         if viol is None:
             # the same frames as sparse_frame objects labelled one after the other with sparseframe.sparse_localmax (largest
@@ -286,11 +310,17 @@ class C13(object):
                     if rr.random() < 0.3:
                         nl2 = self.sf.sparse_localmax(fr, label_name="again")
                         objs.append((k, fr, "again", nl2))
+                    if rr.random() < 0.4 and fr.nnz > 1:
+                        # a frame derived from this one (the brighter half of its pixels) is labelled as well: what the
+                        # parent advertises about its own labels must not change
+                        child = fr.threshold(float(np.median(fr.pixels["intensity"])))
+                        if child.nnz:
+                            self.sf.sparse_localmax(child)
             nobj = len(objs)
             for k, fr, lname, nl in objs:
                 f = frames[k]
                 ref, nmax = ref_sparse(np.array(f["row"]), np.array(f["col"]), np.array(f["val"], np.float32))
-                if nl != nmax or not np.array_equal(np.asarray(fr.pixels[lname]), ref):
+                if nl != nmax or not np.array_equal(np.asarray(fr.pixels[lname]), ref) or fr.meta.get(lname, {}).get("nlabel") != nmax:
                     viol = {"class": "labels-differ", "key": "sparse_localmax:labels-differ",
                             "detail": "sparse_localmax on %d frame objects one after the other: the labels '%s' of frame %d, read after the "
                                       "last call, are not steepest ascent on that frame (%d labels reported, %d maxima)" %
@@ -298,6 +328,7 @@ class C13(object):
                     break
         meas = enginea.run_measures(st, cfg)
         meas["frame_objects_labelled_in_sequence"] = nobj
+        meas["relabelling_calls_on_one_scan"] = nrep
         meas["variant"] = {"SparseScan.lmlabel": 1}
         meas["image_kind"] = {"scan": 1}
         return {"digest": enginea.sha(st["digest"], lab_all), "sig": enginea.sha(repr(frames)), "nontrivial": True,
